@@ -39,6 +39,7 @@ type Solver struct {
 	Stats     Stats
 	Log       io.Writer // optional transcript
 	TimeoutMs int
+	Dead      bool // the process stopped answering (crashed or killed by the watchdog)
 	bin       string
 	args      []string
 }
@@ -70,10 +71,23 @@ func (s *Solver) start() error {
 	if err != nil {
 		return err
 	}
-	s.cmd.Stderr = os.Stderr
+	er, err := s.cmd.StderrPipe()
+	if err != nil {
+		return err
+	}
 	if err := s.cmd.Start(); err != nil {
 		return err
 	}
+	go func(p *os.Process) {
+		// z3 prints "ASSERTION VIOLATION" on an internal failure and then waits at a prompt:
+		// kill it at once so that the pending query fails as "solver died" instead of hanging
+		sc := bufio.NewScanner(er)
+		for sc.Scan() {
+			if strings.Contains(sc.Text(), "ASSERTION VIOLATION") {
+				p.Kill()
+			}
+		}
+	}(s.cmd.Process)
 	s.in = bufio.NewWriterSize(w, 1<<16)
 	s.out = bufio.NewReaderSize(r, 1<<16)
 	s.scopes = [][]*Term{nil}
@@ -103,6 +117,7 @@ func (s *Solver) Restart() error {
 		}
 	}
 	s.Close()
+	s.Dead = false
 	return s.start()
 }
 
@@ -251,10 +266,16 @@ func (s *Solver) Check(assumps ...*Term) Result {
 	}
 	s.in.Flush()
 	res := Unknown
+	// watchdog: a solver that neither answers nor honours its own timeout (z3 5.1.0 can stop at an
+	// internal "ASSERTION VIOLATION" prompt) is killed; the query then counts as "solver died"
+	proc := s.cmd.Process
+	wd := time.AfterFunc(time.Duration(s.TimeoutMs)*time.Millisecond+30*time.Second, func() { proc.Kill() })
+	defer wd.Stop()
 	for {
 		line, err := s.readLine()
 		if err != nil {
 			s.Stats.Errors = append(s.Stats.Errors, "solver died: "+err.Error())
+			s.Dead = true
 			break
 		}
 		if line == "" {
@@ -280,6 +301,16 @@ func (s *Solver) Check(assumps ...*Term) Result {
 	}
 	s.Stats.Queries++
 	s.Stats.SolverTime += time.Since(t0)
+	if d := time.Since(t0); d > 2*time.Second && os.Getenv("GOSX_SLOWQ") != "" {
+		txt := ""
+		for _, a := range assumps {
+			txt += " " + a.String()
+		}
+		if len(txt) > 1500 {
+			txt = txt[:1500]
+		}
+		fmt.Fprintf(os.Stderr, "SLOWQ %.1fs %v:%s\n", d.Seconds(), res, txt)
+	}
 	switch res {
 	case Sat:
 		s.Stats.SatN++
